@@ -220,6 +220,9 @@ def r18_predicates(model: Model, rep: Report) -> None:
          "same confounders and base variable, and either neither node is fixed by an intervention on itself or both are fixed to the same value"),
         ("R18.4", f"{CG}.value_of_self_intervention", "own_value", {"a": V}, (), "own-value",
          "the +base / -base among a counterfactual variable's own subscripts, else nothing"),
+        ("R18.5", "y0.dsl._variable_sort_key", "lower_of_two_key", {"variable": V}, ("y0.dsl._sort_interventions",), "lower-of-two",
+         "merge_pw keeps 'the lower' of two copies by this key: name first, then the sorted subscripts written one after the other (the copy with "
+         "fewer subscripts first); ID* line 9 subscripts the whole district with the subscripts of the names that were kept"),
     ], REF, _mk, SetAlg(rewriter(graph_rewrite, c18_rewrite)), construct=construct, loc=loc)
 
 
